@@ -6,6 +6,9 @@ mod processor;
 
 use bindings::*;
 use cpu_mask::*;
+// Verification hook (H3): makes the out-of-repository harness module reachable from the crate root.
+#[cfg(any(kani, folo_verif))]
+pub(crate) use cpu_mask::folo_verif_cpu_mask;
 use filesystem::*;
 pub(crate) use platform::*;
 pub(crate) use processor::*;
